@@ -63,7 +63,34 @@ claim("C08", "error-flow path analysis (first effect on every other-error path),
       STDNOTE,
       "DESIGN.md §3 E8, §4 C08")
 
-_pending = "check not built yet in this round (planned: see DESIGN.md §4); not claimed until its rules run against /repo"
-for _id in ["C01","C02","C05","C06","C11","C15","C17"]:
-    na(_id, _pending)
+THIN = (" Only the clauses named here are decided; the behavioural core of this property is numeric and is explicitly NOT decided (DESIGN.md says which part). ")
+
+claim("C15", "gob field-coverage rule over the serialised type graph + writer/reader entry-sequence agreement + complete-read and name-derivation rules + effect analysis of the loader",
+      "Decides for all file sets: every field of the serialised types is exported/encodable or regenerated by Deserialize; writer and reader agree on two entries per license (text, then the gob of the search set of that same text), each read completely; the reader strips exactly the extension the writer requires; both sides use the same Normalizers; loading writes no package-level state. Equality of match results additionally rests on the classifier being deterministic.",
+      STDNOTE, "DESIGN.md §4 C15")
+
+claim("C01", "call-site agreement rules (tokenizer configuration, q/threshold single writer), inclusive-guard fact, tokenizer window dataflow rules, span/line linear-form agreement",
+      "Decides the structural necessary conditions of 'a verbatim copy is found whole at 1.0': same tokenizer configuration and dictionary on both sides; q derived from the one stored threshold and used on both sides; inclusive acceptance test; window carry-over and decoder window; span/line agreement." + THIN,
+      STDNOTE, "DESIGN.md §4 C01")
+
+claim("C02", "argument/value-identity rules on the scoring pipeline (whole-document denominator, one diffRange partition, offsets applied to matching ends via linear forms), Confidence provenance, line-counter typestate",
+      "Decides: the diff is against the whole corpus document whose length is also the confidence denominator; the distance is scoreDiffs of exactly the retained range; trimmed word counts are textLength of the two outer parts and are applied to the start and end of the span; every reported Confidence is score's result; only a decoded newline advances the line counter." + THIN,
+      STDNOTE, "DESIGN.md §4 C02")
+
+claim("C05", "lower-casing dataflow rule on every write into the word buffer (specialised to normalize=true), punctuation table rule, decoder window rule, line-counter typestate",
+      "Decides: with normalisation on every rune/byte appended to a word buffer went through unicode.ToLower; every typographic dash maps to '-'; the decoder is not capped at the window (byte shifts cannot change a rune); only a decoded newline ends a line." + THIN,
+      STDNOTE, "DESIGN.md §4 C05")
+
+claim("C06", "table well-formedness/idempotence rule, flag-survival phi rule across the read loop, replace-all rule, token-text provenance rule, Copyright literal rule, pseudo-match segregation rule",
+      "Decides: the interchangeable-word table is well formed and idempotent; hyphenation flags survive buffer refills; the https->http rewrite covers every occurrence in a token; a token's text is cleanupToken at its own position; Copyright literals are well formed; Copyright pseudo-matches must not be pruned by the line-range overlap filter (fails today: known finding D12)." + THIN,
+      STDNOTE, "DESIGN.md §4 C06")
+
+claim("C11", "non-interference of the line counter from the normalisation flags (data + control dependence), result freshness by effect analysis, case-insensitivity table rule, trailing-dot guard fact, word-table idempotence",
+      "Decides: line numbers cannot depend on the normalize/updateDict flags; Normalize uses Match's tokenizer and returns memory of its own; the ignorable-line patterns are case-insensitive; a number token cannot keep a trailing dot; the word table is idempotent." + THIN,
+      STDNOTE, "DESIGN.md §4 C11")
+
+claim("C17", "substring/offset provenance rule in Tokenize (with guard facts for string(rune)), sort-before-untangle rule with comparator first-key enumeration, same-string rule",
+      "Decides: every contribution to a token's Text is s[i:i+size] at the decoded position (or string(r) under a guard excluding the replacement rune) and Offset is that position; candidate ranges are sorted by target position before untangling; the tokenised string is the string offsets are applied to." + THIN,
+      STDNOTE, "DESIGN.md §4 C17")
+
 na("C07", "quantifies over the numeric behaviour of the sliding-window density, offset clamping and error-margin fusion at document edges; no clause of it is visible in the shape of the code and any proxy would be a frozen fragment (DESIGN.md §4 C07)")
